@@ -1265,6 +1265,8 @@ def getattr_value(I_, obj, name, st, ctx, k, node=None):
       return k(st, obj.args)
     if name == "errno":
       return k(st, obj.args[0] if obj.args else None)
+    if name == "strerror":
+      return k(st, obj.args[1] if len(obj.args) > 1 else None)
     if name == "message":
       return k(st, obj.args[0] if obj.args else "")
     if name == "__class__":
